@@ -112,6 +112,11 @@ def gen_breaks(rng, nc, kind, p):
         a = rng.choice([0.0, -1.25, 3.5])
         s = rng.choice([1.0, 2.5, 0.3])
         return [a + s * b for b in br]
+    if kind == 'rawtiny':      # a very small domain: absolute tolerances (1e-8 and the like) are larger than a cell
+        return list(np.linspace(0.0, 1e-7, nc + 1))
+    if kind == 'rawfar':       # a domain far from the origin: tolerances relative to |x| are larger than a cell
+        a = rng.choice([1000.0, 1.0e4])
+        return list(np.linspace(a, a + rng.choice([1.0, 6.283185307179586]), nc + 1))
     if kind == 'rawuniform':
         a = rng.choice([0.0, -0.7, 2.0])
         b = a + rng.choice([1.0, 6.283185307179586, 0.37])
@@ -135,7 +140,7 @@ def gen_breaks(rng, nc, kind, p):
 
 def make_space(rng, nc, p, periodic, kind):
     """kind: nonuniform | uniform | raw | rawuniform ; uniform + degree 3 is the uniform-cubic fast path"""
-    return {'nc': nc, 'p': p, 'periodic': periodic, 'kind': kind, 'uniform': kind in ('uniform', 'rawuniform'),
+    return {'nc': nc, 'p': p, 'periodic': periodic, 'kind': kind, 'uniform': kind in ('uniform', 'rawuniform', 'rawtiny', 'rawfar'),
             'breaks': qs([ff(b) for b in gen_breaks(rng, nc, kind, p)])}
 
 
@@ -323,6 +328,10 @@ def gen_cases_1d(chk):
         periodic = rng.random() < 0.5
         nc = rng.randint(max(6, p + 1), 16)
         combos.append((nc, p, periodic, rng.choice(['raw', 'rawuniform'])))
+    # magnitudes: tiny domains and domains far from the origin (direct oracle only), both boundary types, general path
+    for j, p in enumerate([1, 2, 4, 5] if quick else [1, 2, 3, 4, 5, 2, 4, 5]):
+        combos.append((16, p, j % 4 != 3, 'rawtiny'))
+        combos.append((rng.choice([96, 128]), p, j % 4 != 1, 'rawfar'))
     for (nc, p, periodic, kind) in combos:
         spd = make_space(rng, nc, p, periodic, kind)
         n = nc if periodic else nc + p
